@@ -323,8 +323,14 @@ def check(prop, tier, only=None):
         unit["_pkgpath"] = pkgpath
         unit["_tier"] = tier
         names = [h for h, d in sorted(harnesses.items()) if not (tier == "quick" and d.get("tier") == "thorough")]
+        if unit.get("only"):
+            names = [h for h in names if re.search(unit["only"], h)]
+        if unit.get("skip"):
+            names = [h for h in names if not re.search(unit["skip"], h)]
         if only:
             names = [h for h in names if re.search(only, h)]
+        if not names:
+            continue
         _PROG = Prog(json.load(open(out)))
         _UNIT = unit
         unit_meta.append({"unit": unit["name"], "pkg": pkgpath, "tags": unit.get("tags", ""), "ssa_funcs": len(_PROG.funcs), "dump_s": round(dt, 2), "harnesses": names})
